@@ -162,7 +162,7 @@ func c06Gen(r *Rand, tier string, emit func(op any)) {
 		}
 	}
 	// random core compositions (C05's generator) under terminal levels, in-process, custom or non-exiting hooks
-	n := 300
+	n := 1200
 	if thorough {
 		n = 20000
 	}
